@@ -455,6 +455,12 @@ class SchemaBuilder(
                     parent_schema = self.visit_with_conv(tp, conversion=identity)
                 except Unsupported:
                     parent_schema = json_schema(type=JsonType.OBJECT)
+                # subclasses, which reference this schema, add their own properties
+                parent_schema = JsonSchema(
+                    (k, v)
+                    for k, v in parent_schema.items()
+                    if k != "additionalProperties"
+                )
                 required = parent_schema.get("required", [])
                 if discriminator_alias not in required:
                     required = required + [discriminator_alias]
